@@ -1096,8 +1096,12 @@ func writeEvidence(chk *Check, results []*harnessResult, seed int, wall float64,
 		"violations":  nviol,
 	}
 	data, _ := json.MarshalIndent(ev, "", " ")
-	os.MkdirAll(filepath.Join(*flagVerif, "evidence"), 0755)
-	os.WriteFile(filepath.Join(*flagVerif, "evidence", chk.Property+".json"), data, 0644)
+	dir := "evidence"
+	if *flagOnly != "" || *flagParam != "" || *flagNoRep {
+		dir = "evidence_scratch" // experiments never overwrite the registered evidence
+	}
+	os.MkdirAll(filepath.Join(*flagVerif, dir), 0755)
+	os.WriteFile(filepath.Join(*flagVerif, dir, chk.Property+".json"), data, 0644)
 }
 
 func checkIface(prog *ssa.Program, e *IfaceExpect) string {
